@@ -59,7 +59,7 @@ def completeListS (f : Path → RVal → R (Data × List Err)) (path : Path) :
   | _, [] => .ok ([], [])
   | i, v :: vs => do
     let (d, e) ← f (path ++ [.idx i]) v
-    let (ds, es) ← completeListS f path (i + 1) vs
+    let (ds, es) ← keepErrs e (completeListS f path (i + 1) vs)           -- field errors already recorded stay
     pure (d :: ds, e ++ es)
 
 /-- `CompleteValue(fieldType, fields, result, variableValues)`; a field error is recorded and `null` stays
@@ -79,6 +79,10 @@ def completeValueS (s : SchemaD) (execSel : String → Path → List Sel → R (
       pure (.list ds, es)
     | .leaf (.arr _) | .obj _ => .error .unsupported
     | .leaf _ => .error (.internal "RuntimeError")
+    | .raise items msg ext =>                                            -- the collection fails while being read: field error
+      match completeListS (completeValueS s execSel fields t) path 0 items with
+      | .ok (_, es) => .error (.raised (.resolver msg ext) none es)
+      | .error x => .error x
   | .named n, path, result =>
     match result with
     | .null => .ok (.null, [])
@@ -101,6 +105,7 @@ def completeValueS (s : SchemaD) (execSel : String → Path → List Sel → R (
             if isPossibleType s n rt then execSel rt path (mergeSelectionSets fields)
             else .error (.internal "RuntimeError")
           | some _ => .error (.internal "RuntimeError")
+        | .raise _ msg ext => .error (.raised (.resolver msg ext) none [])  -- ResolveAbstractType fails: field error
         | _ => .error (.internal "UnknownType")
       | _ => .error (.internal "TypeError")
 
@@ -116,7 +121,9 @@ def executeFieldS (s : SchemaD) (w : World) (execSel : String → Path → List 
       match w objectType fd.name path argumentValues with               -- ResolveFieldValue
       | .err msg ext => .ok (.null, [{ path := path, locs := [field.loc], kind := .resolver msg ext }])
       | .boom => .error (.internal "unexpected")
-      | .val v => completeValueS s execSel fields fd.type path v
+      | .val v =>
+        -- "If completing the value raises a field error: record it and return null for this field"
+        catchField path field.loc (completeValueS s execSel fields fd.type path v)
 
 /-- the `for each groupedFieldSet` loop of `ExecuteSelectionSet` -/
 def executeGroupsS (s : SchemaD) (w : World) (execSel : String → Path → List Sel → R (Data × List Err))
@@ -145,7 +152,8 @@ def executeSelectionSetS (s : SchemaD) (doc : Doc) (vars : Vars) (w : World) (cf
     Nat → String → Path → List Sel → R (Data × List Err)
   | 0 => fun _ _ _ => .error .outOfFuel
   | n + 1 => fun objectType path selectionSet => do
-    let (groupedFieldSet, _) ← collectFieldsS s doc vars cf objectType selectionSet []
+    -- a directive condition that cannot be evaluated is a field error of the enclosing field
+    let (groupedFieldSet, _) ← catchDirective (collectFieldsS s doc vars cf objectType selectionSet [])
     let (resultMap, es) ← executeGroupsS s w (executeSelectionSetS s doc vars w cf n) objectType path groupedFieldSet
     pure (.obj resultMap, es)
 
@@ -162,6 +170,7 @@ def executeRequestS (s : SchemaD) (doc : Doc) (vars : Vars) (w : World) (opname 
       else
         match executeSelectionSetS s doc vars w cf fuel root [] op.sels with
         | .ok (d, es) => .result d es
+        | .error (.raised k l inner) => .result .null (inner ++ [{ path := [], locs := l.getD [], kind := k }])
         | .error f => .failed f
 
 end PyGql.Spec
